@@ -41,6 +41,7 @@ type FCParams struct {
 	RTTUs   int64  `json:"rtt_us"` // 0: zero-valued RTTStats, auto-tuning off
 	Allow   uint32 `json:"allow"`  // decision of the k-th allowWindowIncrease call = bit (k mod 32)
 	PeerStr int64  `json:"peer_sw"`
+	Tempo   int64  `json:"tempo_us"` // unit of the clock steps between operations
 }
 
 type FCOp struct {
@@ -81,6 +82,8 @@ type fcMachine struct {
 	str   []*fcStream
 	nextI int64
 	dead  bool
+	// finishing: Finish is completing the streams; no class bookkeeping for its own operations
+	finishing bool
 
 	// connection ledger
 	hr, c       int64
@@ -160,7 +163,7 @@ func maxGrow(w, mx int64) int64 {
 // ---------------------------------------------------------------------------------------------
 // generator
 
-var fcDts = []int64{0, 0, 0, 0, 1, 100, 1000, 10_000, 100_000, 1_000_000, 30_000_000}
+var fcDts = []int64{0, 0, 0, 0, 0, 1, 1, 2, 5, 20, 300}
 
 func (m *fcMachine) Gen(t *rapid.T) FCOp {
 	if m.dead {
@@ -174,8 +177,38 @@ func (m *fcMachine) Gen(t *rapid.T) FCOp {
 		"blkS", "blkS", "blkC", "cancel", "reset", "recycle", "zrtt",
 	}
 	k := rapid.SampledFrom(kinds).Draw(t, "kind")
-	op := FCOp{K: k, Dt: rapid.SampledFrom(fcDts).Draw(t, "dt")}
+	if m.lc == 0 && (k == "send" || k == "blkC" || k == "blkS") {
+		k = "updC" // transport parameters arrive early in a connection's life
+	}
+	op := FCOp{K: k, Dt: m.p.Tempo * rapid.SampledFrom(fcDts).Draw(t, "dt")}
 	op.S = rapid.IntRange(0, len(m.str)-1).Draw(t, "s")
+	if rapid.IntRange(0, 4).Draw(t, "smart") != 0 {
+		// prefer a stream on which the operation does something
+		var el []int
+		for i, s := range m.str {
+			ok := false
+			switch k {
+			case "recv", "reset", "cancel":
+				ok = !s.completed && !s.cancelLocal
+			case "read":
+				ok = !s.completed && !s.cancelLocal && (s.highest > s.read || (s.final >= 0 && s.read == s.final) || s.resetRemote)
+			case "wuS":
+				ok = s.flagS && s.final < 0
+			case "send":
+				ok = m.sws(s) > 0
+			case "blkS":
+				ok = s.limit == s.sent
+			case "recycle":
+				ok = s.completed
+			}
+			if ok {
+				el = append(el, i)
+			}
+		}
+		if len(el) > 0 {
+			op.S = el[rapid.IntRange(0, len(el)-1).Draw(t, "el")]
+		}
+	}
 	s := m.str[op.S]
 	switch k {
 	case "recv":
@@ -184,29 +217,32 @@ func (m *fcMachine) Gen(t *rapid.T) FCOp {
 			break
 		}
 		room := min(s.adv, s.highest+(m.advC-m.hr)) // largest offset an honest peer may send
-		mode := rapid.IntRange(0, 19).Draw(t, "mode")
+		mode := rapid.IntRange(0, 99).Draw(t, "mode")
 		switch {
-		case mode < 6: // honest progress
+		case mode < 40: // honest progress
 			op.V = rapid.Int64Range(s.highest, max(s.highest, room)).Draw(t, "off")
-		case mode < 10: // exactly up to the limit
+		case mode < 60: // exactly up to the limit
 			op.V = max(s.highest, room)
-		case mode < 12: // small step
+		case mode < 75: // small step
 			op.V = min(max(s.highest, room), s.highest+int64(rapid.IntRange(1, 3).Draw(t, "step")))
-		case mode < 14: // reordered / duplicate
+		case mode < 96: // reordered / duplicate
 			op.V = rapid.Int64Range(0, s.highest).Draw(t, "old")
-		case mode < 15: // one past the stream limit
+		case mode < 97: // one past the stream limit
 			op.V = s.adv + 1
-		case mode < 16: // one past what the connection allows
+		case mode < 98: // one past what the connection allows
 			op.V = s.highest + (m.advC - m.hr) + 1
-		case mode < 17: // far beyond
+		case mode < 99: // far beyond
 			op.V = max(s.adv, s.highest+(m.advC-m.hr)) + rapid.Int64Range(1, 1<<20).Draw(t, "far")
 		default:
 			op.V = rapid.Int64Range(s.highest, max(s.highest, room)).Draw(t, "off")
 		}
-		if s.final >= 0 && rapid.IntRange(0, 9).Draw(t, "respect-final") != 0 {
+		if s.final >= 0 && rapid.IntRange(0, 49).Draw(t, "respect-final") != 0 {
 			op.V = min(op.V, s.final)
 		}
 		op.Fin = rapid.IntRange(0, 7).Draw(t, "fin") == 0
+		if op.Fin && (op.V < s.highest || (s.final >= 0 && op.V != s.final)) && rapid.IntRange(0, 29).Draw(t, "bad-fin") != 0 {
+			op.Fin = false // a FIN below the highest offset / contradicting the known final size is a (rare) hostile case
+		}
 		if s.final >= 0 && op.V == s.final {
 			op.Fin = rapid.Bool().Draw(t, "refin")
 		}
@@ -216,17 +252,17 @@ func (m *fcMachine) Gen(t *rapid.T) FCOp {
 			break
 		}
 		room := min(s.adv, s.highest+(m.advC-m.hr))
-		switch rapid.IntRange(0, 9).Draw(t, "mode") {
+		switch rapid.IntRange(0, 39).Draw(t, "mode") {
 		case 0:
 			op.V = room + 1 // final size beyond the limits
 		case 1:
 			op.V = rapid.Int64Range(0, s.highest).Draw(t, "short") // final size below what was received
-		case 2, 3:
+		case 2, 3, 4, 5, 6, 7, 8, 9:
 			op.V = max(s.highest, room)
 		default:
 			op.V = rapid.Int64Range(s.highest, max(s.highest, room)).Draw(t, "final")
 		}
-		if s.final >= 0 && rapid.IntRange(0, 9).Draw(t, "respect-final") != 0 {
+		if s.final >= 0 && rapid.IntRange(0, 29).Draw(t, "respect-final") != 0 {
 			op.V = s.final
 		}
 		if rapid.IntRange(0, 2).Draw(t, "reliable") == 0 && op.V > 0 {
@@ -535,7 +571,7 @@ func (m *fcMachine) recv(s *fcStream, off int64, fin, reset bool, reliable int64
 func (m *fcMachine) abandon(s *fcStream) {
 	s.fc.Abandon()
 	if unread := s.highest - s.read; unread > 0 {
-		if !s.abandoned {
+		if !s.abandoned && !m.finishing {
 			m.cls["abandon-unread"] = true
 		}
 		m.c += unread
@@ -565,7 +601,7 @@ func (m *fcMachine) read(s *fcStream, n int64) *vf.Verdict {
 	// announcements: true must be followed by a real update; a fully (or threshold-) consumed window must be announced
 	remS := s.adv - s.read
 	if s.final < 0 {
-		if !hs && remS <= thr(s.win)-1 {
+		if !hs && (remS <= thr(s.win)-1 || remS == 0) {
 			return vf.Bad("C04/advertise/stalled", "stream %d: %d of advertised %d consumed (window %d) but AddBytesRead announces no stream window update", s.id, s.read, s.adv, s.win)
 		}
 		if hs && remS > thr(s.win)+1 {
@@ -578,7 +614,7 @@ func (m *fcMachine) read(s *fcStream, n int64) *vf.Verdict {
 		return vf.Bad("C04/advertise/after-final", "stream %d: stream window update announced although the final size is known", s.id)
 	}
 	remC := m.advC - m.c
-	if !hc && remC <= thr(m.winC)-1 {
+	if !hc && (remC <= thr(m.winC)-1 || remC == 0) {
 		return vf.Bad("C04/advertise/stalled", "connection: %d of advertised %d consumed (window %d) but AddBytesRead announces no connection window update", m.c, m.advC, m.winC)
 	}
 	if hc {
@@ -599,7 +635,9 @@ func (m *fcMachine) cancel(s *fcStream) *vf.Verdict {
 		return nil
 	}
 	s.cancelLocal = true
-	m.cls["cancel-read"] = true
+	if !m.finishing {
+		m.cls["cancel-read"] = true
+	}
 	if s.final >= 0 {
 		m.abandon(s)
 		s.completed = true
@@ -624,7 +662,7 @@ func (m *fcMachine) wuS(s *fcStream) *vf.Verdict {
 		if s.flagS {
 			return vf.Bad("C04/advertise/flag-without-update", "stream %d: AddBytesRead announced a window update but GetWindowUpdate returned 0 (consumed %d, advertised %d, window %d)", s.id, s.read, s.adv, s.win)
 		}
-		if rem <= thr(s.win)-1 {
+		if rem <= thr(s.win)-1 || rem == 0 {
 			return vf.Bad("C04/advertise/stalled", "stream %d: %d of advertised %d consumed (window %d) but no update is issued", s.id, s.read, s.adv, s.win)
 		}
 		if len(m.cbCalls) != 0 {
@@ -699,7 +737,7 @@ func (m *fcMachine) wuC() *vf.Verdict {
 		if m.flagC {
 			return vf.Bad("C04/advertise/flag-without-update", "connection: AddBytesRead announced a window update but GetWindowUpdate returned 0 (consumed %d, advertised %d, window %d)", m.c, m.advC, winBefore)
 		}
-		if rem <= thr(winBefore)-1 {
+		if rem <= thr(winBefore)-1 || rem == 0 {
 			return vf.Bad("C04/advertise/stalled", "connection: %d of advertised %d consumed (window %d) but no update is issued", m.c, m.advC, winBefore)
 		}
 		if len(m.cbCalls) != 0 {
@@ -753,6 +791,7 @@ func abs64(x int64) int64 {
 // window update through a probe stream so that the consumed total is observed exactly.
 func (m *fcMachine) Finish(u *vf.Unit) *vf.Verdict {
 	if !m.dead {
+		m.finishing = true
 		m.cbCalls, m.cbAllowed, m.cbErr = m.cbCalls[:0], m.cbAllowed[:0], nil
 		for _, s := range m.str {
 			if s.completed {
@@ -849,6 +888,7 @@ func genFCParams(t *rapid.T) FCParams {
 	p.RTTUs = rapid.SampledFrom([]int64{0, 1000, 20_000, 100_000, 100_000, 1_000_000}).Draw(t, "rtt")
 	p.Allow = rapid.SampledFrom([]uint32{0xFFFFFFFF, 0xFFFFFFFF, 0xFFFFFFFF, 0, 0xAAAAAAAA, 0x55555555, 0xFFFF0000}).Draw(t, "allow")
 	p.PeerStr = rapid.SampledFrom([]int64{0, 1, 10, 1000, 65536}).Draw(t, "peer")
+	p.Tempo = rapid.SampledFrom([]int64{0, 1, 100, 1000, 10_000, 100_000}).Draw(t, "tempo")
 	return p
 }
 
